@@ -114,6 +114,10 @@ def st_lte_template(draw, family):
 
 @st.composite
 def st_lte_twostep(draw):
+    if draw(st.booleans()):
+        spec = draw(Z.st_twostep(variant="strongT"))
+        spec["strongT"] = True
+        return spec
     spec = draw(Z.st_twostep())
     if draw(st.integers(0, 3)) == 0:
         spec["x"] = 1.0 + 10.0 ** draw(_f(-2.5, -1.0))   # Tn above Tc: larger x only widens the healthy T range
